@@ -515,7 +515,11 @@ package larking
 //@   count lits `next.search(`
 //@   assert atcall `v.index(` [literal-child-searched-before-any-variable C02] p.segments != nil && maphas(p.segments, segment) ==> lits == 1
 //@   ensures [found] err == nil ==> m != nil && len(m.vars) == gf(p, "depth") + len(ps)
+//@   count tried `v.index(`
+//@   count parses `parseParam(`
+//@   ensures [a-path-is-refused-only-after-every-variable-edge-was-tried C02] at every return err != nil ==> len(toks) <= 1 || toks[0].typ != tokenSlash || tried == len(p.variables) || parses >= 1
 //@   loop 1 invariant -1 <= rangeindex && rangeindex < len(p.variables)
+//@   loop 1 invariant tried == rangeindex + 1 && parses == 0
 //@   loop 1 decreases len(p.variables) - rangeindex
 
 //@ func (*path).match serves C01 C02 C09
